@@ -15,7 +15,7 @@ func selfTest(ctx *core.Ctx) error {
 	for _, k := range fontKinds() {
 		byLabel[k.Label] = k
 	}
-	dc := &docCase{Fonts: []string{"standard/Helvetica", "gofont/0/composite"}, Version: "1.7", Pretty: true, Origin: "selftest",
+	dc := &docCase{Fonts: []string{"standard/Helvetica", "sample/CFFSimple1"}, Version: "1.7", Pretty: true, Origin: "selftest",
 		B: behaviour{Kind: "walk", Steps: []step{
 			{Op: "show", F: 1, Items: []item{{1, 1}, {2, 1}, {1, 2}, {3, 1}}},
 			{Op: "enc", F: 2, Items: []item{{5, 1}}},
